@@ -86,7 +86,7 @@ pub fn image_params() -> GenParams {
 /// Build an image by running the (write-only part of the) case plus a fixed tail that guarantees
 /// tables on two levels, a manifest with several records and a non-empty WAL.
 pub fn build_image(case: &Case) -> Result<Image, String> {
-    raindb::verif::set_level_base_bytes(0);
+    crate::engine::set_level_limits(0);
     let fs = Arc::new(MemFs::new(true));
     let mut cfg = case.cfg;
     if cfg.block > 256 {
@@ -382,7 +382,7 @@ pub fn eval_point(p: &CorruptPoint) -> Result<EvalInfo, CorruptViolation> {
 }
 
 fn eval_inner(p: &CorruptPoint) -> Result<EvalInfo, (String, bool)> {
-    raindb::verif::set_level_base_bytes(0);
+    crate::engine::set_level_limits(0);
     let img = &p.image;
     let fs = Arc::new(MemFs::new(false));
     for (path, data) in &img.files {
